@@ -14,7 +14,11 @@
     likelihoods (V = ln w, so P is rational; nested and cross-nested logit through an uninterpreted
     `pow`) are replayed: get_logit / get_nested_logit / get_cross_nested_logit on the sampled table,
     BIOGEME's likelihood, and the ordinary loglogit / lognested / logcnl on the full choice set must
-    all equal the spec's value (1e-9).
+    all equal the spec's value (1e-9).  The names of the nests are not part of the model
+    (NamesNotInModel): every nest structure is replayed under the labellings the spec emits (nobody
+    named, all the same name, first nest called like the default name of the second, distinct user
+    names, last nest called like the default name of the first) and must give the SAME value (a
+    refusal by BiogemeError is admissible only where the user gave two nests the same name).
 (D) inputs: raw contexts (valid and singly mutated) with the reaction of the real code are judged
     by the spec's InputClauses (accepting an input the documentation says is refused = violation).
 """
@@ -92,16 +96,22 @@ def body(chk: check.Check):
     lap('inputs')
 
     # ------------------------------------------------------------------ (C) spec -> code
-    items = [(rec, chk.seed + 13 * i, None) for i, rec in enumerate(emitted)]
-    res = par.pmap(sp.replay_full, items, chunk=8)
+    # quick: per nest structure and utility family the default labelling and ONE other (rotating); thorough: all
+    items = [(rec, chk.seed + 13 * i, None, i if quick else 'all') for i, rec in enumerate(emitted)]
+    res = par.pmap(sp.replay_full, items, chunk=4 if quick else 2)
     shown = False
-    for (rec, seed, _), (st, val) in zip(items, res):
+    namings = {}
+    for (rec, seed, _, _), (st, val) in zip(items, res):
         chk.replayed += 1
         shape = dict(strata=[len(s['sub']) for s in rec['strata']], hasmev=rec['hasmev'])
         if st != 'ok':
             chk.violation(f'full:{st}', dict(instance=_inst_of(rec), error=val), match=dict(clause='replay-exception', **shape))
             continue
         chk.count(('full', tuple(tuple(s['sub']) for s in rec['strata']), rec['hasmev']), val['n'])
+        for k, (eq, refused) in val['namings'].items():
+            t = namings.setdefault(k, dict(equal=0, refused_by_the_library=0))
+            t['equal'] += eq
+            t['refused_by_the_library'] += refused
         for key, detail, facts in val['problems']:
             chk.violation(key, detail, match=facts)
         if not shown and rec['hasmev'] and len(rec['strata']) == 2:
@@ -112,6 +122,11 @@ def body(chk: check.Check):
                             expected_nested_loglikelihood=[{f: terms.evf(n['fams'][f]['ll']) for f in sp.FAMS} for n in rec['nested']],
                             first_nest_structure=rec['nested'][0]['nests'], compared_values=val['n'], mismatches=len(val['problems'])))
 
+    chk.extra['nest_labellings'] = dict(sorted(namings.items()))
+    for model in ('sampled-nested', 'full-nested', 'sampled-cnl', 'full-cnl'):
+        for kind in sp.NAMING_KINDS:
+            if f'{model}:{kind}' not in namings and not any(v['match'].get('clause') == model and v['match'].get('naming') == kind for v in chk.violations):
+                raise MachineryError(f'no replay of {model} under the labelling {kind}')
     lap('replay of complete sampling')
     # ------------------------------------------------------------------ negative controls
     controls(chk, recorded, emitted)
@@ -122,6 +137,9 @@ def body(chk: check.Check):
         'the evidence only reports how many of the admissible draws of the small instances were observed',
         'nested and cross-nested logit are replayed for complete sampling only: with a partial second sample the likelihood is an '
         'approximation without exact reference',
+        'labellings of the nests: five per nest structure (the names "n", "nest_<k>", "zone_<k>"); '
+        + ('in this tier every structure is replayed under the default labelling and ONE other (all five kinds are met over the instances)'
+           if quick else 'every structure is replayed under all five'),
         'the allocation parameters (_CNL_ columns) of a cross-nested context are not judged in the row traces, only through the replayed likelihood',
         'tables larger than %d alternatives / more than 3 strata' % (8 if quick else 16),
     ]
@@ -417,6 +435,29 @@ def controls(chk, recorded, emitted):
     st, out = rt.forked(_quiet, sp.replay_full, (rec, chk.seed, None))
     chk.control('unmodified replay of the same instance: no logit mismatch',
                 st == 'ok' and not any(k.startswith(('full:sampled-logit', 'full:full-logit')) for k, _, _ in out['problems']))
+    # (5b) names of nests: a get_nested_logit that files its sums under the NAME of the nest (patched in a forked child)
+    rec2 = next(r for r in emitted if r['hasmev'] and len(r['strata']) >= 2 and min(len(s['sub']) for s in r['strata']) >= 2)
+    st, out = rt.forked(_quiet, sp.replay_full, (rec2, chk.seed, 'name-keyed-nested', 'all'))
+    st0, out0 = rt.forked(_quiet, sp.replay_full, (rec2, chk.seed, None, 'all'))
+    hit = sorted({f.get('naming') for k, _, f in out['problems'] if k.startswith('full:sampled-nested')}) if st == 'ok' else None
+    hit0 = sorted({f.get('naming') for k, _, f in out0['problems'] if k.startswith('full:sampled-nested')}) if st0 == 'ok' else None
+    chk.control('wrong code: get_nested_logit filing the sums of a nest under its NAME is reported where all nests have the same name, not under the '
+                'default or distinct names; the real get_nested_logit is reported under no labelling',
+                st == 'ok' and st0 == 'ok' and 'same' in hit and 'default' not in hit and 'distinct' not in hit and hit0 == [],
+                f'labellings reported: wrong code {hit}, real code {hit0}')
+    mut = copy.deepcopy(rec2)
+    for ns in mut['nested']:
+        for nm in ns['namings']:
+            nm['may_refuse'] = True
+    st, out = rt.forked(_quiet, _refusing, (mut, chk.seed, None, 'all'))
+    st0, out0 = rt.forked(_quiet, _refusing, (rec2, chk.seed, None, 'all'))
+    # (structures of two nests and more: a single nest called "n" is no clash)
+    ref = sorted({f.get('naming') for k, _, f in out0['problems'] if k == 'full:sampled-nested:exception' and len(f['names']) >= 2}) if st0 == 'ok' else None
+    chk.control('wrong code: a library that refuses (BiogemeError) every labelling with a user-given name is reported for the distinct names and the '
+                'name clashing with a default one, not where two nests were given the same name',
+                st0 == 'ok' and 'distinct' in ref and 'default-clash' in ref and 'default-clash-reverse' in ref and 'same' not in ref and 'default' not in ref
+                and st == 'ok' and not any(k == 'full:sampled-nested:exception' and f.get('naming') != 'default' for k, _, f in out['problems']),
+                f'refusals reported under {ref}')
 
     # (6) input judgement: the spec must call a valid input valid and name the clause of an invalid one
     evs = [sp.input_event(('valid', [1, 2, 3], [[1, 2], [3]], [1, 1], [1]), ('rejected', 'BiogemeError', '')),
@@ -447,6 +488,23 @@ def _quiet(fn, *args):
     dn = os.open(os.devnull, os.O_WRONLY)
     os.dup2(dn, 2)
     return fn(*args)
+
+
+def _refusing(item):
+    """The real replay with a get_nested_logit that refuses every nest carrying a user-given name."""
+    from biogeme.exceptions import BiogemeError
+    from biogeme.sampling_of_alternatives import GenerateModel
+
+    real = GenerateModel.get_nested_logit
+
+    def refusing(self, nests):
+        if any(not (nest.name or '').startswith('nest_') or nest.name == 'nest_2' and k == 0 or nest.name == 'nest_1' and k > 0
+               for k, nest in enumerate(nests)):
+            raise BiogemeError('named nests are refused')
+        return real(self, nests)
+
+    GenerateModel.get_nested_logit = refusing
+    return sp.replay_full(item)
 
 
 def _record_wrong_sampler(inst, seed, ind):
